@@ -1069,5 +1069,5 @@ PROPERTIES = {
             "(b) the ignored flag is constructor-only, marks are never removed, the marker the ignorers fill is the one FormattedTokens is built from, before any formatter runs; "
             "(c) reconstruct's ignored arm pushes only the safety-net newline and the original leading whitespace (on every path) and reads no counter; (d) both ignorers are "
             "registered, every token of every AsmInstruction line is marked, the wrapper skips such lines; (e) whole-line voiding requires all tokens ignored; "
-            "(f) toggle recognition constants and grammar; (g) every logical line finished in parse_asm_instructions is typed AsmInstruction on every path. Not decided: region extent as a function of comment text beyond these constants.", []),
+            "(f) toggle recognition constants and grammar; (g) every logical line finished in parse_asm_instructions is typed AsmInstruction on every path. Not decided: region extent as a function of comment text beyond these constants. Added later: (h) child lines of voided lines are still laid out; (i) the asm ignorer marks the closed span first..=last of every instruction line; (j) a line type does not survive finish_logical_line; (c) is per-path: {[safety-net line break] original whitespace}; (f) marks an On comment iff a region was open.", []),
 }
